@@ -252,19 +252,19 @@ func codecCmd(args []string) int {
 	}
 	healthy, _, _ := peer.Login(srv.Addr, peer.LoginOpts{Token: env.Token})
 	firsts := map[string][]byte{
-		"garbage":            []byte("\x00\x01\x02garbage-not-a-frame-at-all-............"),
-		"unknown-type":       frame('Z', 2, []byte("{}")),
-		"negative-length":    frame('o', -5, bytes.Repeat([]byte{0}, 32)),
-		"oversize-length":    frame('o', 1<<40, bytes.Repeat([]byte{0}, 32)),
-		"bad-json-login":     frame('o', 5, []byte(`{"a":`)),
-		"unexpected-ping":    encode(&msg.Ping{}),
-		"unexpected-proxy":   encode(&msg.NewProxy{ProxyName: "x", ProxyType: "tcp"}),
-		"unexpected-req":     encode(&msg.ReqWorkConn{}),
-		"unexpected-udp":     encode(&msg.UDPPacket{Content: "aGk="}),
-		"unexpected-report":  encode(&msg.NatHoleReport{Sid: "s", Success: true}),
-		"unexpected-pong":    encode(&msg.Pong{}),
-		"unexpected-resp":    encode(&msg.LoginResp{RunID: "x"}),
-		"http-like":          []byte("POST /x HTTP/1.1\r\nHost: a\r\n\r\n"),
+		"garbage":           []byte("\x00\x01\x02garbage-not-a-frame-at-all-............"),
+		"unknown-type":      frame('Z', 2, []byte("{}")),
+		"negative-length":   frame('o', -5, bytes.Repeat([]byte{0}, 32)),
+		"oversize-length":   frame('o', 1<<40, bytes.Repeat([]byte{0}, 32)),
+		"bad-json-login":    frame('o', 5, []byte(`{"a":`)),
+		"unexpected-ping":   encode(&msg.Ping{}),
+		"unexpected-proxy":  encode(&msg.NewProxy{ProxyName: "x", ProxyType: "tcp"}),
+		"unexpected-req":    encode(&msg.ReqWorkConn{}),
+		"unexpected-udp":    encode(&msg.UDPPacket{Content: "aGk="}),
+		"unexpected-report": encode(&msg.NatHoleReport{Sid: "s", Success: true}),
+		"unexpected-pong":   encode(&msg.Pong{}),
+		"unexpected-resp":   encode(&msg.LoginResp{RunID: "x"}),
+		"http-like":         []byte("POST /x HTTP/1.1\r\nHost: a\r\n\r\n"),
 	}
 	keys := []string{}
 	for k := range firsts {
